@@ -554,6 +554,7 @@ func TestVerifC16(t *testing.T) {
 	c16Headers(c, mc.Pick(c, 4, 5))
 	c16TextVsCSV(c)
 	c16Trees(c)
+	c16Notes(c)
 	if code := c.Finish(); code != 0 {
 		os.Exit(code)
 	}
